@@ -39,6 +39,7 @@ type funcTarget struct {
 	fragOut  string // ... as a function of fragTag returning the final value of fragOut
 	exprOf   string   // emit the right-hand side of the first `var x = e` / `x := e` of this local (anywhere in the body) as a function of its free variables
 	loops    bool     // with conds: also emit the conditions of the top-level `for` statements (<name>_loop<k>)
+	recvParam string  // a plain function whose parameter of this name plays the receiver's part (its fields become f_<path>)
 	state    []string // receiver fields (as f_<path>) whose final values are returned next to the results: stores into them
 	//                   become let-bindings, every return becomes the tuple (results..., state...)
 }
@@ -79,6 +80,10 @@ var funcTargets = []funcTarget{
 	{pkg: "internal", name: "Max"},
 	{pkg: "internal", recv: "StatusCode", name: "Bytes"},
 	{pkg: "internal", recv: "StatusCode", name: "Uint16"},
+	{pkg: "gws", name: "initServerOption", skeleton: true, recvParam: "c", state: []string{"f_ReadMaxPayloadSize", "f_ParallelGolimit", "f_ReadBufferSize", "f_WriteMaxPayloadSize", "f_WriteBufferSize", "f_HandshakeTimeout",
+		"f_PermessageDeflate_ServerMaxWindowBits", "f_PermessageDeflate_ClientMaxWindowBits", "f_PermessageDeflate_Threshold", "f_PermessageDeflate_Level", "f_PermessageDeflate_PoolSize"}},
+	{pkg: "gws", name: "initClientOption", skeleton: true, recvParam: "c", state: []string{"f_ReadMaxPayloadSize", "f_ParallelGolimit", "f_ReadBufferSize", "f_WriteMaxPayloadSize", "f_WriteBufferSize", "f_HandshakeTimeout",
+		"f_PermessageDeflate_ServerMaxWindowBits", "f_PermessageDeflate_ClientMaxWindowBits", "f_PermessageDeflate_Threshold", "f_PermessageDeflate_Level", "f_PermessageDeflate_PoolSize"}},
 }
 
 type ftr struct {
@@ -113,6 +118,13 @@ func (t *ftr) lhsName(e ast.Expr) (string, bool) {
 	if len(t.tgt.state) > 0 {
 		if p, ok := t.recvPath(e); ok && p != "" {
 			name := "f_" + p
+			listed := false
+			for _, st := range t.tgt.state {
+				listed = listed || st == name
+			}
+			if !listed {
+				return "", false // a store into a field outside the state of interest: skipped like any other store
+			}
 			if _, ok := t.params[name]; !ok {
 				t.params[name] = gtype(t.info.TypeOf(e))
 			}
@@ -120,6 +132,37 @@ func (t *ftr) lhsName(e ast.Expr) (string, bool) {
 		}
 	}
 	return "", false
+}
+
+// assignedIn: the let-bound names (locals assigned with `=`, `op=`, `++`; listed state fields) a statement can change,
+// and whether control can leave it other than by falling off its end
+func (t *ftr) assignedIn(n ast.Node) (names []string, escapes bool) {
+	seen := map[string]bool{}
+	ast.Inspect(n, func(x ast.Node) bool {
+		switch y := x.(type) {
+		case *ast.FuncLit:
+			return false
+		case *ast.ReturnStmt, *ast.BranchStmt, *ast.ForStmt, *ast.RangeStmt, *ast.SwitchStmt, *ast.DeferStmt:
+			escapes = true
+		case *ast.AssignStmt:
+			if y.Tok == token.DEFINE {
+				return true
+			}
+			for _, l := range y.Lhs {
+				if nm, ok := t.lhsName(l); ok && nm != "v__" && !seen[nm] {
+					seen[nm] = true
+					names = append(names, nm)
+				}
+			}
+		case *ast.IncDecStmt:
+			if nm, ok := t.lhsName(y.X); ok && !seen[nm] {
+				seen[nm] = true
+				names = append(names, nm)
+			}
+		}
+		return true
+	})
+	return
 }
 
 // skeleton mode: the result of a call outside the subset is an input i_<name>, bound to the variable at this point
@@ -387,6 +430,44 @@ func (t *ftr) expr(e ast.Expr) string {
 				}
 			}
 		}
+		{
+			// internal.SelectValue(ok, a, b) = if ok then a else b; a translated package-level function: call it
+			var fname *ast.Ident
+			switch f := x.Fun.(type) {
+			case *ast.Ident:
+				fname = f
+			case *ast.SelectorExpr:
+				if pk, ok := f.X.(*ast.Ident); ok {
+					if _, isPkg := t.info.Uses[pk].(*types.PkgName); isPkg {
+						fname = f.Sel
+					}
+				}
+			case *ast.IndexExpr: // explicit instantiation F[T](...)
+				if sel, ok := f.X.(*ast.SelectorExpr); ok {
+					fname = sel.Sel
+				} else if id, ok := f.X.(*ast.Ident); ok {
+					fname = id
+				}
+			}
+			if fname != nil {
+				if fo, ok := t.info.Uses[fname].(*types.Func); ok && fo.Pkg() != nil {
+					if fname.Name == "SelectValue" && len(x.Args) == 3 && strings.HasSuffix(fo.Pkg().Path(), "/internal") {
+						return fmt.Sprintf("(if %s then %s else %s)", t.expr(x.Args[0]), t.expr(x.Args[1]), t.expr(x.Args[2]))
+					}
+					pk := "gws"
+					if strings.HasSuffix(fo.Pkg().Path(), "/internal") {
+						pk = "internal"
+					}
+					if g, ok := generated[pk+".."+fname.Name]; ok && len(g.extras) == 0 {
+						var args []string
+						for _, a := range x.Args {
+							args = append(args, t.expr(a))
+						}
+						return "(" + g.name + " " + strings.Join(args, " ") + ")"
+					}
+				}
+			}
+		}
 		if fn, ok := x.Fun.(*ast.Ident); ok && t.tgt.conds {
 			if _, isFunc := t.info.Uses[fn].(*types.Func); isFunc {
 				name := "fn_" + fn.Name // a package-level function outside the subset: its result is an input of the condition
@@ -458,6 +539,45 @@ func (t *ftr) stmts(list []ast.Stmt, k string) string {
 			noInit := *s
 			noInit.Init = nil
 			return t.stmts(append([]ast.Stmt{s.Init, &noInit}, list[1:]...), k)
+		}
+		if len(t.tgt.state) > 0 {
+			// state mode: an `if` without return/break inside is a join point - it only changes the variables assigned in
+			// it: `let '(x, y) := if c then <x, y after the then-branch> else <x, y after the else-branch> in rest`
+			// (translating the rest once per branch would double the term at every `if`)
+			names, escapes := t.assignedIn(s.Body)
+			if s.Else != nil {
+				n2, e2 := t.assignedIn(s.Else)
+				escapes = escapes || e2
+				for _, n := range n2 {
+					dup := false
+					for _, m := range names {
+						dup = dup || m == n
+					}
+					if !dup {
+						names = append(names, n)
+					}
+				}
+			}
+			if !escapes {
+				if len(names) == 0 {
+					return rest() // no effect on the values kept
+				}
+				sort.Strings(names)
+				tup, pat := names[0], names[0]
+				if len(names) > 1 {
+					tup = "(" + strings.Join(names, ", ") + ")"
+					pat = "'" + tup
+				}
+				thenJ := t.stmts(s.Body.List, tup)
+				elseJ := tup
+				switch e := s.Else.(type) {
+				case *ast.BlockStmt:
+					elseJ = t.stmts(e.List, tup)
+				case *ast.IfStmt:
+					elseJ = t.stmts([]ast.Stmt{e}, tup)
+				}
+				return fmt.Sprintf("(let %s := (if %s\n   then %s\n   else %s) in\n   %s)", pat, t.expr(s.Cond), thenJ, elseJ, rest())
+			}
 		}
 		thenB := t.stmts(append(append([]ast.Stmt{}, s.Body.List...), list[1:]...), k)
 		var elseB string
@@ -899,6 +1019,9 @@ func genFuncs(pkgs []*packages.Package) string {
 			if fd.Recv != nil && len(fd.Recv.List[0].Names) == 1 {
 				t.recv = fd.Recv.List[0].Names[0].Name
 			}
+			if tg.recvParam != "" {
+				t.recv = tg.recvParam
+			}
 		}
 		if tg.fragTag != "" {
 			sw := findSwitch(fd.Body, tg.fragTag)
@@ -911,7 +1034,7 @@ func genFuncs(pkgs []*packages.Package) string {
 			body = t.stmts([]ast.Stmt{sw}, "v_"+tg.fragOut)
 		} else {
 			setRecv(t)
-			if t.recv != "" {
+			if t.recv != "" && fd.Recv != nil {
 				if _, isPtr := fd.Recv.List[0].Type.(*ast.StarExpr); !isPtr {
 					if isIntegral(info.TypeOf(fd.Recv.List[0].Type)) {
 						params = append(params, par{"v_" + t.recv, "Z"}) // value receiver of integer type
